@@ -42,40 +42,65 @@ def gen_W_case(rng, quick):
     L = rng.randint(2, 4 if d == 2 else 3) if finite else rng.randint(1, 2 if d == 3 else 3)
     markers = rng.random() < 0.7 or not finite
     cplx = rng.random() < 0.5
-    if markers:
-        inner = [rng.randint(0, 2) for _ in range(L + 1)]   # number of "other" states per bond
-        if not finite:
-            inner[L] = inner[0]
-        chi = [n + 2 for n in inner]
-        idL, idR = [], []
-        for b in range(L + 1):
-            if rng.random() < 0.7:
-                idL.append(0)
-                idR.append(chi[b] - 1)
-            else:
-                l, r = rng.sample(range(chi[b]), 2)
-                idL.append(l)
-                idR.append(r)
-        if not finite:
-            idL[L], idR[L] = idL[0], idR[0]
-    else:
-        chi = [1] + [rng.randint(1, 3) for _ in range(L - 1)] + [1]
-        idL = [0] + [None] * L
-        idR = [None] * L + [0]
+    # finite MPOs in sum form need IdL only up to the last bond where a term starts and IdR only from the first bond where
+    # a term ends (MPOGraph.from_term_list(insert_all_id=False) builds such MPOs): partial marker lists
+    partial = markers and finite and rng.random() < 0.45
 
-    def gen_W():
+    def gen_structure():
+        """chi, idL, idR of one operand"""
+        if markers and not partial:
+            inner = [rng.randint(0, 2) for _ in range(L + 1)]   # number of "other" states per bond
+            if not finite:
+                inner[L] = inner[0]
+            chi = [n + 2 for n in inner]
+            idL, idR = [], []
+            for b in range(L + 1):
+                if rng.random() < 0.7:
+                    idL.append(0)
+                    idR.append(chi[b] - 1)
+                else:
+                    l, r = rng.sample(range(chi[b]), 2)
+                    idL.append(l)
+                    idR.append(r)
+            if not finite:
+                idL[L], idR[L] = idL[0], idR[0]
+            return chi, idL, idR
+        if partial:
+            kL = rng.randint(0, L)        # IdL on bonds 0..kL
+            mR = rng.randint(0, L)        # IdR on bonds mR..L
+            chi, idL, idR = [], [], []
+            for b in range(L + 1):
+                hasL, hasR = b <= kL, b >= mR
+                nm = int(hasL) + int(hasR)
+                # a bond that lacks a marker carries at least one other state (no dead ends); total 1..4 states,
+                # often exactly two states with one or no marker
+                lo = 0 if nm == 2 else 1
+                n_other = rng.choice([lo, lo, 1, 2 - nm if 2 - nm >= lo else lo, rng.randint(lo, 2)])
+                n = nm + n_other
+                pos = rng.sample(range(n), nm) if rng.random() < 0.3 else ([0, n - 1][:nm] if hasL else [n - 1][:nm])
+                it = iter(pos)
+                idL.append(next(it) if hasL else None)
+                idR.append(next(it) if hasR else None)
+                chi.append(n)
+            return chi, idL, idR
+        chi = [1] + [rng.randint(1, 3) for _ in range(L - 1)] + [1]
+        return chi, [0] + [None] * L, [None] * L + [0]
+
+    chi, idL, idR = gen_structure()
+
+    def gen_W(chi=chi, idL=idL, idR=idR):
         W = []
         for i in range(L):
             ents = []
             for l in range(chi[i]):
                 for r in range(chi[i + 1]):
+                    lL, lR = idL[i], idR[i]
+                    rL, rR = idL[i + 1], idR[i + 1]
                     if markers:
-                        lL, lR = idL[i], idR[i]
-                        rL, rR = idL[i + 1], idR[i + 1]
-                        if l == lL and r == rL or l == lR and r == rR:
+                        if (lL is not None and l == lL and r == rL) or (lR is not None and l == lR and r == rR):
                             ents += [[l, r, a, a, [1, 0]] for a in range(d)]
                             continue
-                        if l == lR or r == rL:
+                        if (lR is not None and l == lR) or (rL is not None and r == rL):
                             continue       # nothing leaves IdR, nothing enters IdL
                     if rng.random() < (0.6 if markers else 0.8):
                         for _ in range(rng.randint(1, 2)):
@@ -86,15 +111,22 @@ def gen_W_case(rng, quick):
         return W
     case = {'kind': 'W', 'L': L, 'd': d, 'finite': finite, 'markers': markers, 'chi': chi, 'idL': idL, 'idR': idR,
             'WA': gen_W(), 'seed': rng.randrange(1 << 30)}
+    case['partial'] = partial
     r = rng.random()
     if r < 0.55:
-        case['WB'] = gen_W()
+        if finite and rng.random() < 0.5:
+            # a partner with its own bond dimensions and marker lists
+            chiB, idLB, idRB = gen_structure()
+            case.update({'chiB': chiB, 'idLB': idLB, 'idRB': idRB})
+            case['WB'] = gen_W(chiB, idLB, idRB)
+        else:
+            case['WB'] = gen_W()
     elif r < 0.7:
         case['WB'] = [list(x) for x in case['WA']]       # an equal partner
     elif r < 0.8:
         # Hermitian partner test: B = A
         case['WB'] = [list(x) for x in case['WA']]
-    if markers and finite and rng.random() < 0.6:
+    if markers and not partial and finite and rng.random() < 0.6:
         N = rng.choice([1, 1, 2])
         start = rng.randint(0, L - N)
         tb = Fraction(rng.choice([1, 2, 3, -2, 1]), rng.choice([1, 2]))
@@ -103,7 +135,7 @@ def gen_W_case(rng, quick):
             tb = abs(tb)           # python: beta ** (1/2) of a positive float
         case['plus_identity'] = {'alpha': oc.fr_str(alpha), 'tb': oc.fr_str(tb), 'N': N,
                                  'sites': list(range(start, start + N))}
-    if markers:
+    if markers and not partial:
         case['UI'] = {'dt': [oc.fr_str(Fraction(rng.randint(-2, 2), 4)), oc.fr_str(Fraction(rng.choice([-1, 1, 2]), 4))]}
         qs = []
         for _ in range(3):
@@ -160,6 +192,8 @@ def gen_terms_case(rng, quick):
         case['tlB'] = [t for t in tlA]   # equal
     if finite:
         case['apply'] = True
+        # MPOGraph.from_term_list(insert_all_id=False): IdL / IdR only on the bonds where they are needed
+        case['insert_all_id'] = [rng.random() < 0.55, rng.random() < 0.55]
     return case
 
 
@@ -183,10 +217,12 @@ def unit_site(d):
     return site
 
 
-def W_to_mpo(case, ents):
+def W_to_mpo(case, ents, which='A'):
     import tenpy.linalg.np_conserved as npc
     from tenpy.networks.mpo import MPO
-    L, d, chi = case['L'], case['d'], case['chi']
+    L, d = case['L'], case['d']
+    sfx = 'B' if which == 'B' and 'chiB' in case else ''
+    chi, idL_, idR_ = case['chi' + sfx], case['idL' + sfx], case['idR' + sfx]
     site = unit_site(d)
     Ws = []
     for i in range(L):
@@ -196,11 +232,11 @@ def W_to_mpo(case, ents):
         if np.all(W.imag == 0):
             W = W.real.copy()
         Ws.append(npc.Array.from_ndarray_trivial(W, labels=['wL', 'wR', 'p', 'p*']))
-    return MPO([site] * L, Ws, 'finite' if case['finite'] else 'infinite', list(case['idL']), list(case['idR']),
+    return MPO([site] * L, Ws, 'finite' if case['finite'] else 'infinite', list(idL_), list(idR_),
                max_range=None, mps_unit_cell_width=L)
 
 
-def terms_to_mpo(case, tl):
+def terms_to_mpo(case, tl, which='A'):
     from tenpy.networks.mpo import MPOGraph
     from tenpy.networks.terms import TermList
     site = oc.make_site(case['site'])
@@ -211,8 +247,9 @@ def terms_to_mpo(case, tl):
         strength = strength.real.copy()
     with warnings.catch_warnings():
         warnings.simplefilter('ignore')
+        ia = case.get('insert_all_id', [True, True])[1 if which == 'B' else 0] or not case['finite']
         g = MPOGraph.from_term_list(TermList(terms, strength), sites, 'finite' if case['finite'] else 'infinite',
-                                    unit_cell_width=case['L'])
+                                    insert_all_id=bool(ia), unit_cell_width=case['L'])
         return g.build_MPO()
 
 
